@@ -376,21 +376,22 @@ macro "run" : tactic => `(tactic|
   repeat (rw [runSolo_succ]; simp (config := { maxSteps := 400000 }) [step, stepPC, afterTerm, flushSec, kindMessage, fo_frames, bufBytes]))
 
 def e0 : St := { opts := { splitSize := 1, wsize := 0 } }
+def rec1 : Started := ⟨1, 2, [1#8, 2#8], [f1, f2], .msgSend [1#8, 2#8]⟩
 def secA : WSec := { frames := [f2], checks := true, flush := .checked, recvAfter := none }
 def secB : WSec := { frames := [], checks := true, flush := .checked, recvAfter := none }
 /-- `MsgSend [1,2]` with split size 1 and writer threshold 0: parked in the transport write of frame 1 -/
-def e1 : St := e0.upd 0 { w := some 0, wHeld := true, once := some none, mid := 1, wFlag := true, inflight := some (0, [f1]), hist := [f1], midN := 1 } (.writing secA false)
+def e1 : St := e0.upd 0 { w := some 0, wHeld := true, once := some none, mid := 1, wFlag := true, inflight := some (0, [f1]), hist := [f1], midN := 1, started := [rec1] } (.writing secA false)
 /-- … that write succeeded -/
-def e2 : St := e0.upd 0 { w := some 0, wHeld := true, once := some none, mid := 1, wire := [[f1]], hist := [f1], midN := 1 } (.frame secA)
+def e2 : St := e0.upd 0 { w := some 0, wHeld := true, once := some none, mid := 1, wire := [[f1]], hist := [f1], midN := 1, started := [rec1] } (.frame secA)
 /-- … parked in the transport write of frame 2 -/
-def e3 : St := e0.upd 0 { w := some 0, wHeld := true, once := some none, mid := 1, wFlag := true, inflight := some (0, [f2]), wire := [[f1]], hist := [f1, f2], midN := 1 } (.writing secB false)
+def e3 : St := e0.upd 0 { w := some 0, wHeld := true, once := some none, mid := 1, wFlag := true, inflight := some (0, [f2]), wire := [[f1]], hist := [f1, f2], midN := 1, started := [rec1] } (.writing secB false)
 /-- … that write failed with error 9 -/
-def e4 : St := e0.upd 0 { w := some 0, wHeld := true, once := some none, mid := 1, wire := [[f1]], hist := [f1, f2], midN := 1, failed := true } (.ret secB (.err (.transport 9)))
+def e4 : St := e0.upd 0 { w := some 0, wHeld := true, once := some none, mid := 1, wire := [[f1]], hist := [f1, f2], midN := 1, failed := true, started := [rec1] } (.ret secB (.err (.transport 9)))
 /-- … and MsgSend has returned the transport's error -/
-def e5 : St := e0.upd 0 { once := some none, mid := 1, wire := [[f1]], hist := [f1, f2], midN := 1, failed := true } (.done (.err (.transport 9)))
+def e5 : St := e0.upd 0 { once := some none, mid := 1, wire := [[f1]], hist := [f1, f2], midN := 1, failed := true, started := [rec1], sendRets := [(0, 1, .err (.transport 9), true)] } (.done (.err (.transport 9)))
 
 theorem e01 : call e0 0 (.msgSend [1#8, 2#8]) = e1 := by
-  unfold e1 e0 call secA; run
+  unfold e1 e0 call secA rec1; run
 theorem e12 : envStep e1 (.release none) = some e2 := by
   simp [envStep, e1, e2, secA]
 theorem e23 : runSolo 64 e2 0 = e3 := by
